@@ -6,8 +6,8 @@
    type.  [faithful k g]: the IR type of every C integer type has its width and signedness.
    Relation to C27: c27_eval_exact_partial states the same typing result for CONSTANT expressions and the
    constant evaluator; here the operands are arbitrary (parameters, assignments) and the object is the IR. *)
-From PV Require Import Lib.Py Spec.CIntSpec Spec.CExprSpec Gen.ceval Model.CEval Model.CSema Model.CGenExpr
-                       Model.CGenExprRun Spec.IRSyntax Spec.IRSem Proofs.C27_ceval Proofs.C01_arith Proofs.C01_expr
+From PV Require Import Lib.Py Spec.CIntSpec Spec.CExprSpec Gen.ceval Model.CEval Model.CGenExpr
+                       Model.CGenExprRun Spec.IRSyntax Spec.IRSem Proofs.C01_base Proofs.C01_arith Proofs.C01_expr
                        Proofs.C01_refuted Gen.c01_targets.
 Open Scope Z_scope.
 
@@ -36,7 +36,8 @@ Theorem c01_function_value : forall (k : cfg) (g : cgen), wf_ctx (cg_ctx g) -> f
 Proof. exact fn_value. Qed.
 Print Assumptions c01_function_value.
 
-(* with fixes/C01-common-type.diff (sem_c11) the typing hypothesis disappears, except for op= *)
+(* THE CURRENT CODE (sem_c11 = CSemantics since commit c83990b, fixes/C01-common-type.diff; the check probes the real
+   promote / get_common_type on every run): no typing hypothesis is left, except for op= *)
 Theorem c01_expr_value_c11 : forall (k : cfg) (g : cgen), wf_ctx (cg_ctx g) -> faithful k g ->
   forall (te : tenv) (e : cx) (st : store) (v : Z) (st' : store),
   store_ok (dm_of (cg_ctx g)) te st -> cassign_all (dm_of (cg_ctx g)) te e = true ->
@@ -148,7 +149,10 @@ Theorem c01_targets_faithful : forall k, faithful k tg_x86_64 /\ faithful k tg_a
 Proof. exact targets_faithful. Qed.
 Print Assumptions c01_targets_faithful.
 
-(* -- the code as found violates the property: witnesses (replayed on c_to_ir by tools/props/c01.py) -- *)
+(* -- violations, with witnesses replayed on c_to_ir by tools/props/c01.py on every run.  HISTORICAL (typing before
+      commit c83990b, sem_orig): c01_common_type_ilp32/lp64_refuted, c01_promote_int16_refuted, c01_orig_fragment.
+      STILL PRESENT (known findings): c01_uint_irtype_int16_refuted, c01_compound_assign_refuted (its second half
+      is about sem_c11, the current typing) -- *)
 (* ILP32: unsigned a; long b; (a + b) / 2 *)
 Theorem c01_common_type_ilp32_refuted :
   exists te rt e args, type_refuted sem_orig orig_ilp32 te e = true /\
